@@ -177,7 +177,7 @@ func (g *tgen) structFor(s *asch) sx {
 	field := func(jsonName string, t sx) sx {
 		n++
 		tag := jsonName
-		if r.Intn(5) == 0 {
+		if r.Intn(5) == 0 || (g.zeroHeavy && r.Intn(5) != 0) {
 			tag += ",omitempty"
 		}
 		return T("field", hs(fmt.Sprintf("F%d", n)), A("true"), hs(tag), hs(""), t)
